@@ -106,9 +106,9 @@ func (obj HashTable) LoadForm() Object {
 	for k, v := range obj {
 		switch k.(type) {
 		case Symbol:
-			form = append(form, List{Symbol("setf"), List{Symbol("gethash"), List{quoteSymbol, k}, tsym}, v})
+			form = append(form, List{Symbol("setf"), List{Symbol("gethash"), List{quoteSymbol, k}, tsym}, LoadFormValue(v)})
 		case String, Number, Character, boolean, nil:
-			form = append(form, List{Symbol("setf"), List{Symbol("gethash"), k, tsym}, v})
+			form = append(form, List{Symbol("setf"), List{Symbol("gethash"), k, tsym}, LoadFormValue(v)})
 		}
 	}
 	form = append(form, Symbol("table"))
